@@ -12,6 +12,7 @@ Stateful lines (one integrator living across lines; `Model.AdaptDt.IState`):
   `hfix b=<0|1> A ...`                     `set_fixed_h(b)`            -> `ok`
   `hcts cfl=<f> und=<f> A ...`             `compute_time_step`         -> result
   `hsol cfl=<f> und=<f> A ...`             `Solver._compute_timestep`  -> result
+  `hpar cfl=<f> und=<f> big=<f> others=<fl> A ...`  the same with in_parallel (min-reduction with the other ranks' offers)
   `hstate`                                 -> `flag=<-|0|1> fixed=<0|1> hmin=<-|inf|f>`
 -/
 namespace PysphVerif.Driver.C19
@@ -84,6 +85,12 @@ def handle (line : String) : String :=
                 | some b => computeTimeStepCached b Float.sqrt arrs cfl fixedH
               if cmd = "cts" then showRes r
               else if cmd = "sol" then showRes (solverTimestepOf r und)
+              else if cmd = "par" then
+                -- `Solver._compute_timestep` with in_parallel: big=<f> others=<fl> (the other ranks' offers)
+                match (lookup kv "big") >>= parseFloatBits?,
+                      (lookup kv "others") >>= parseList? parseFloatBits? with
+                | some big, some others => showRes (solverTimestepPar big und r others)
+                | _, _ => "bad-op"
               else "bad-op"
         | _, _, _ => "bad-op"
       | _ => "bad-op"
@@ -109,13 +116,18 @@ def hstep (s : IState Float) (line : String) : IState Float × String :=
        | some arrs, some "0" => (s.setFixedH false arrs, "ok")
        | _, _ => (s, "bad-op"))
     | cmd :: rest =>
-      if cmd = "hcts" || cmd = "hsol" then
+      if cmd = "hcts" || cmd = "hsol" || cmd = "hpar" then
         let kv := kvs rest
         match arrGroups.mapM parseArr, (lookup kv "cfl") >>= parseFloatBits?,
               (lookup kv "und") >>= parseFloatBits? with
         | some arrs, some cfl, some und =>
           let r := s.cts Float.sqrt arrs cfl
-          (r.1, showRes (if cmd = "hcts" then r.2 else solverTimestepOf r.2 und))
+          if cmd = "hpar" then
+            match (lookup kv "big") >>= parseFloatBits?,
+                  (lookup kv "others") >>= parseList? parseFloatBits? with
+            | some big, some others => (r.1, showRes (solverTimestepPar big und r.2 others))
+            | _, _ => (s, "bad-op")
+          else (r.1, showRes (if cmd = "hcts" then r.2 else solverTimestepOf r.2 und))
         | _, _, _ => (s, "bad-op")
       else (s, handle line)
     | _ => (s, "bad-op")
